@@ -47,6 +47,10 @@ def run_one(m):
             if r.returncode == 0 and not keys:
                 return (m["id"], "ok-silent", "")
             return (m["id"], "FALSE-ALARM", " ".join(keys))
+        if m.get("known_miss"):
+            if r.returncode == 0 and not keys:
+                return (m["id"], "ok-known-miss", m["known_miss"])
+            return (m["id"], "NOW-CAUGHT", " ".join(keys))
         exp = m.get("expect", "")
         hit = [k for k in keys if exp in k]
         if r.returncode == 1 and hit:
